@@ -363,12 +363,13 @@ class _AbstractDistribution(metaclass=_ABCMeta):
 
         Method to compute the misfit associated with the truncated part of the
         distribution. Used internally."""
+        # Written as "not inside", such that NaN coordinates are outside of any bounds.
         if (
             self.lower_bounds is not None
-            and _numpy.any(coordinates < self.lower_bounds)
+            and not _numpy.all(coordinates >= self.lower_bounds)
         ) or (
             self.upper_bounds is not None
-            and _numpy.any(coordinates > self.upper_bounds)
+            and not _numpy.all(coordinates <= self.upper_bounds)
         ):
             return _numpy.inf
         return 0.0
